@@ -157,6 +157,22 @@ class Program:
                 return self.by_qual.get((cu.rel, f"{cu.qual}.{expr.attr}"))
         return None
 
+    def walk_with_helpers(self, uid, depth=2):
+        """The nodes of a function and of the helpers it calls that resolve to functions of the package defined next to it (nested, same class,
+        same module): lines extracted into such a helper are still part of what the function does."""
+        unit = self.unit(uid)
+        seen, todo, nodes = [unit.node], [(unit, 0)], []
+        while todo:
+            u, d = todo.pop(0)
+            for n in body_walk(u.node):
+                nodes.append(n)
+                if d < depth and isinstance(n, ast.Call) and isinstance(n.func, (ast.Name, ast.Attribute)):
+                    hu = self.resolve_callable(u, n.func)
+                    if hu is not None and isinstance(hu.node, (ast.FunctionDef, ast.AsyncFunctionDef)) and hu.rel == unit.rel and not any(hu.node is x for x in seen):
+                        seen.append(hu.node)
+                        todo.append((hu, d + 1))
+        return nodes
+
     def callers_of(self, unit):
         """Units of the package that call ``unit`` (a nested function, method or module-level function): calls that resolve to it, plus - to stay
         on the safe side - any call `<x>.<name>(..)` on a receiver that cannot be resolved."""
